@@ -5,7 +5,7 @@ import vlib
 from vlib import Broken, tlc, tlc_must_pass
 
 SPECDIR = os.path.join(vlib.SPECS, "ctrl")
-C12_EVENTS = ("fpid", "npid", "fpidk", "npidx")
+C12_EVENTS = ("fpid", "npid", "fpidk", "npidx", "npidl")
 
 
 def run_fuzzy(ck, sc, tier):
@@ -38,6 +38,7 @@ def run_fuzzy(ck, sc, tier):
             raise Broken("fuzzy harness (real width %d) failed rc=%s: %s" % (real, rw.returncode, (rw.stderr or "")[-1500:]))
         sw = json.loads(mw.group(1))
         summ["controllers"] += sw["controllers"]; summ["events"] += sw["events"]
+        summ["learn"] = summ.get("learn", 0) + sw.get("learn", 0); summ["learn_inrange"] = summ.get("learn_inrange", 0) + sw.get("learn_inrange", 0)
     files = sorted(glob.glob(sc.path("fz*-*.ndjson")))
     nev, bad = vlib.validate_collect(os.path.join(SPECDIR, "FuzzyTrace.tla"), os.path.join(SPECDIR, "FuzzyTrace.cfg"), files, sc)
     return summ, bad, files
@@ -52,6 +53,10 @@ def part_c12(ck, sc, tier):
     n = 0
     for f, idx, ev in bad:
         if ev.get("f") in C12_EVENTS:
+            if ev["f"] == "npidl":
+                ck.violation("trace:npidl:inc", {"what": "single-neuron controller with learning: a step is not w += eta e u(k-1) x(k-1), u = clamp(u(k-1) + K w.x / |w|_1) within the logging unit", "event": ev})
+                n += 1
+                continue
             if ev["f"] == "npidx":
                 ck.violation("trace:npidx:inc", {"what": "single-neuron controller (learning rates zero, exact data): output is not clamp(u(k-1) + K (wp xp + wi xi + wd xd) / (|wp|+|wi|+|wd|)), or the weights moved", "event": ev})
                 n += 1
@@ -59,7 +64,9 @@ def part_c12(ck, sc, tier):
             ck.violation("trace:%s:opr%s:mode%s" % (ev["f"], ev.get("opr", "-"), ev.get("mode")),
                          {"what": "TLC rejected the fuzzy / neuro controller run: output limits, finiteness, scheduled gains or reset behaviour", "event": ev})
             n += 1
-    ck.part("fuzzy_and_neuro_controllers", scenarios=summ["controllers"], rejected=n)
+    ck.part("fuzzy_and_neuro_controllers", scenarios=summ["controllers"], rejected=n, neuro_learning_scenarios=summ.get("learn", 0), neuro_learning_in_logging_range=summ.get("learn_inrange", 0))
+    if summ.get("learn", 0) and summ.get("learn_inrange", 0) * 2 < summ.get("learn", 0) and not n:
+        raise Broken("vacuity: fewer than half of the single-neuron learning scenarios stayed inside the logging range")
     ck.cov["evaluations"] += summ["controllers"]
     ck.cov["distinct_nontrivial"] += summ["controllers"]
     ck.cov["traces_validated_against_impl"] += summ["controllers"] - n
